@@ -185,9 +185,18 @@ def unquote (s : List Char) : List Char := replace unquoteTbl s
 
 def dq : Char := '"'
 
-/-- `unescapeDataValidationFormula` -/
+/-- `unescapeDataValidationFormula`: unescape; a text enclosed in double quotes (a drop list
+written by `SetDropList`) has its doubled quotes un-doubled INSIDE the enclosing pair -/
 def unescapeDV (val : List Char) : List Char :=
-  if [dq].isPrefixOf val then unquote (unescape val) else unescape val
+  let u := unescape val
+  if u.length > 1 && [dq].isPrefixOf u && u.getLast? == some dq then
+    dq :: unquote (u.drop 1).dropLast ++ [dq]
+  else u
+
+/-- `getDataValidations`: Formula1 of a list validation gets the drop-list decoding, every
+other formula (Formula1 of other types, Formula2) is only unescaped -/
+def getFormula (isListFormula1 : Bool) (content : List Char) : List Char :=
+  if isListFormula1 then unescapeDV content else unescape content
 
 /-- UTF-16 length of a valid UTF-8 byte string -/
 def utf16Len (s : List Char) : Nat :=
@@ -343,13 +352,25 @@ def storedScopeSet (sheets : List (List Char)) (x : XDN) : List Char :=
 inductive DnErr | param | name | duplicate | scope
   deriving DecidableEq, Repr
 
+/-- `getDefinedNameScope`: nil for the workbook scope ("" or "Workbook"), else the index of
+the named sheet (case-insensitive), which must exist -/
+def resolveScope (sheets : List (List Char)) (s : List Char) : Except DnErr (Option Nat) :=
+  if s.isEmpty || s == workbookS then .ok none
+  else match sheetIndex sheets s with
+    | some i => .ok (some i)
+    | none => .error .scope
+
+def sameName (id : Option Nat) (name : List Char) (y : XDN) : Bool :=
+  y.localSheetID == id && y.name == name
+
 def setDN (st : DNState) (d : DN) : Except DnErr DNState :=
   if d.name.isEmpty || d.refersTo.isEmpty then .error .param
   else if !checkDefinedName d.name && !((Facts.C18.builtInDefinedNames.take 2).any fun b => eqFold b.toList d.name) then .error .name
-  else
-    let x : XDN := ⟨d.name, d.refersTo, d.comment, if d.scope.isEmpty then none else sheetIndex st.sheets d.scope⟩
-    if st.names.any (fun y => storedScopeSet st.sheets y == d.scope && y.name == d.name) then .error .duplicate
-    else .ok { st with names := st.names ++ [x] }
+  else match resolveScope st.sheets d.scope with
+    | .error e => .error e
+    | .ok id =>
+      if st.names.any (fun y => y.localSheetID == id && eqFold y.name d.name) then .error .duplicate
+      else .ok { st with names := st.names ++ [⟨d.name, d.refersTo, d.comment, id⟩] }
 
 def delFirst (p : XDN → Bool) : List XDN → Option (List XDN)
   | [] => none
@@ -361,13 +382,13 @@ def storedScopeGet (sheets : List (List Char)) (x : XDN) : List Char :=
   | some i => sheetName sheets i
   | none => workbookS
 
-def delMatch (sheets : List (List Char)) (name scope : List Char) (x : XDN) : Bool :=
-  storedScopeGet sheets x == (if scope.isEmpty then workbookS else scope) && x.name == name
-
 def delDN (st : DNState) (name scope : List Char) : Except DnErr DNState :=
-  match delFirst (delMatch st.sheets name scope) st.names with
-  | some l => .ok { st with names := l }
-  | none => .error .scope
+  match resolveScope st.sheets scope with
+  | .error _ => .error .scope
+  | .ok id =>
+    match delFirst (sameName id name) st.names with
+    | some l => .ok { st with names := l }
+    | none => .error .scope
 
 def getDN (st : DNState) : List DN :=
   st.names.map fun x => ⟨x.name, storedScopeGet st.sheets x, x.data, x.comment⟩
@@ -389,6 +410,13 @@ def setZoom (old new : Int) : Int :=
 /-- `GetSheetView`: a stored zoom outside the bounds reads 100 -/
 def getZoom (z : Int) : Int :=
   if z ≥ (Facts.C18.zoomMin : Int) ∧ z ≤ (Facts.C18.zoomMax : Int) then z else 100
+
+/-- `SetSheetView` with `View = &v`, integral `ZoomScale = &z`: both are validated against the
+documented ranges first (an invalid one is an error and nothing is stored), then stored -/
+def setSheetViewVZ (st : List Char × Int) (v : List Char) (z : Int) : Option (List Char × Int) :=
+  if !(Facts.C18.sheetViewNames.any (fun n => n.toList == v)) then none
+  else if z < (Facts.C18.zoomMin : Int) ∨ z > (Facts.C18.zoomMax : Int) then none
+  else some (setView st.1 v, setZoom st.2 z)
 
 /-- `PageSetUp.FirstPageNumber` (none = attribute absent) after `SetPageLayout` with `FirstPageNumber = &new` -/
 def setFirstPage (old : Option Nat) (new : Nat) : Option Nat :=
